@@ -506,9 +506,18 @@ class Mir:
         for b in self.bodies:
             self.by_name.setdefault((b["crate"], b["nfn"]), []).append(b)
 
-    def fn_span(self, crate, qual):
-        """file:line of a function given (suffix of) its qualified name."""
+    def fn_span(self, crate, qual, base=None, name=None):
+        """file:line of a function given (suffix of) its qualified name; trait impl methods are matched
+        through `<path::Type as Trait>::name`."""
         hits = [b for b in self.bodies if b["crate"] == crate and b["kind"] != "Closure" and (b["nfn"] == qual or b["nfn"].endswith("::" + qual))]
+        if not hits and base and name:
+            rx = re.compile(r"^<(?:&|&mut )?(?:[\w:]*::)?%s(?:<.*>)? as .*>::%s$" % (re.escape(base), re.escape(name)))
+            hits = [b for b in self.bodies if b["crate"] == crate and b["kind"] != "Closure" and rx.match(b["fn"])]
+            if len(hits) > 1:
+                mod = qual.rsplit("::", 2)[0]
+                # prefer the impl whose span is in the module's file
+                pref = [b for b in hits if mod.replace("::", "/") in b["span"]]
+                hits = pref or hits
         if len(hits) >= 1:
             return hits[0]["span"].rsplit(":", 1)[0]
         return None
